@@ -202,6 +202,16 @@ PROPS = {
              "component type in the two SELECT builders, Number always converted from text, CSV columns bound by header order.",
         note="Does not decide equality of results for accepted inputs. Known finding: the Integer integrality guard exists only on the "
              "CSV path."),
+
+    "C17": dict(
+        claimed=True, design="§3 C17",
+        technique="lock-coverage analysis of every access to the compiled parser's global buffer (lexical with-regions + caller-side coverage via the call graph); inventory of process-global state (module globals, class attributes, module-level containers) with writers/readers intersected with API reachability and classified; def-use of the session directory name",
+        text="Decides the structural conditions of thread safety that are visible in the code: the parser's single global buffer is only "
+             "touched under the re-entrant parser_lock; every piece of process-global state on an API path is either protected, "
+             "environment-derived, or reported; per-call resources have per-call unique names. A data race needs one specific "
+             "interleaving to manifest - a static inventory finds the racing pair of sites without having to hit it.",
+        note="Does not decide atomicity inside the C++ extension or DuckDB. Six known findings (registry, dataset_output, four operator "
+             "class attributes used as scratch variables), three demonstrated with forced interleavings (triage/race_demo.py)."),
 }
 
 NA_REASONS = {
